@@ -457,6 +457,11 @@ func (env *SpecEnv) evalDollar(name string) (TV, error) {
 			}
 		}
 	} else if ex.con != nil {
+		for _, v := range ex.con.Counts {
+			if v == name {
+				return TV{ex.ghostGet(env.state(), "cnt:"+name), types.Typ[types.Int]}, nil
+			}
+		}
 		for callee, v := range ex.con.Observe {
 			if v == name {
 				var srt Sort = SBool
@@ -654,13 +659,18 @@ func (env *SpecEnv) evalBinary(e *ast.BinaryExpr) (TV, error) {
 			r = Not(r)
 		}
 		return TV{r, boolT}, nil
-	case token.LSS:
-		return TV{Lt(a.t, b.t), boolT}, nil
-	case token.LEQ:
-		return TV{Le(a.t, b.t), boolT}, nil
-	case token.GTR:
-		return TV{Gt(a.t, b.t), boolT}, nil
-	case token.GEQ:
+	case token.LSS, token.LEQ, token.GTR, token.GEQ:
+		if a.t.sort == SStr {
+			return TV{env.ex.binop(env.st, e.Op, a.t, b.t, types.Typ[types.String], boolT), boolT}, nil
+		}
+		switch e.Op {
+		case token.LSS:
+			return TV{Lt(a.t, b.t), boolT}, nil
+		case token.LEQ:
+			return TV{Le(a.t, b.t), boolT}, nil
+		case token.GTR:
+			return TV{Gt(a.t, b.t), boolT}, nil
+		}
 		return TV{Ge(a.t, b.t), boolT}, nil
 	case token.ADD:
 		if a.t.sort == SStr {
@@ -843,6 +853,29 @@ func (env *SpecEnv) evalCall(e *ast.CallExpr) (TV, error) {
 			return TV{slLen(x.t), types.Typ[types.Int]}, nil
 		}
 		return TV{}, fmt.Errorf("len of %s", x.t.sort)
+	case "heapof":
+		sel, ok := e.Args[0].(*ast.SelectorExpr)
+		if !ok {
+			return TV{}, fmt.Errorf("heapof(T.f) expected")
+		}
+		tn, ok := sel.X.(*ast.Ident)
+		if !ok {
+			return TV{}, fmt.Errorf("heapof(T.f) expected")
+		}
+		obj := env.pkg().Scope().Lookup(tn.Name)
+		if obj == nil {
+			return TV{}, fmt.Errorf("heapof: unknown type %s", tn.Name)
+		}
+		st, ok := obj.Type().Underlying().(*types.Struct)
+		if !ok {
+			return TV{}, fmt.Errorf("heapof: %s is not a struct", tn.Name)
+		}
+		for i := 0; i < st.NumFields(); i++ {
+			if st.Field(i).Name() == sel.Sel.Name {
+				return TV{ex.heapGet(env.state(), fieldHeapName(obj.Type(), i), ArraySort(SInt, vc.sortOf(st.Field(i).Type()))), nil}, nil
+			}
+		}
+		return TV{}, fmt.Errorf("heapof: no field %s", sel.Sel.Name)
 	case "seqeq":
 		a, err := env.eval(e.Args[0])
 		if err != nil {
@@ -1001,6 +1034,21 @@ func (env *SpecEnv) evalCall(e *ast.CallExpr) (TV, error) {
 			return TV{}, err
 		}
 		return TV{x.t, types.Typ[types.Int64]}, nil
+	case "rnd64":
+		x, err := env.eval(e.Args[0])
+		if err != nil {
+			return TV{}, err
+		}
+		vc.declareRnd64()
+		return TV{mk(SReal, "rnd64", x.t), types.Typ[types.Float64]}, nil
+	case "intval", "realval", "strval", "boolval", "refval":
+		x, err := env.eval(e.Args[0])
+		if err != nil {
+			return TV{}, err
+		}
+		acc := map[string]string{"intval": "vint", "realval": "vreal", "strval": "vstr", "boolval": "vbool", "refval": "vref"}[id.Name]
+		srt := map[string]Sort{"intval": SInt, "realval": SReal, "strval": SStr, "boolval": SBool, "refval": SInt}[id.Name]
+		return TV{mk(srt, acc, x.t), nil}, nil
 	case "isInt", "isFloat", "isString", "isBool", "isNil":
 		x, err := env.eval(e.Args[0])
 		if err != nil {
@@ -1100,6 +1148,7 @@ func (env *SpecEnv) pureApply(name string, argExprs []ast.Expr) ([]T, *types.Sig
 					args = append(args, v.t)
 				}
 				rs := ex.pureCall(env.st, "fn."+con.Name, sf.Signature, args)
+				ex.pureAxioms(sf, con)
 				return rs, sf.Signature, nil
 			}
 		}
@@ -1124,6 +1173,7 @@ func (env *SpecEnv) pureApply(name string, argExprs []ast.Expr) ([]T, *types.Sig
 				args = append(args, v.t)
 			}
 			rs := ex.pureCall(env.st, "fn."+con.Name, sf.Signature, args)
+			ex.pureAxioms(sf, con)
 			return rs, sf.Signature, nil
 		}
 	}
